@@ -422,6 +422,110 @@ func polling(repo, file, name string) pollSites {
 	return ps
 }
 
+// ---------------------------------------------------------------- accept
+
+// the errno classification of el.accept / el.accept0: `switch err { case nil: case unix.X, ...: return nil | continue
+// default: return errors.ErrAcceptSocket }` -> the tolerated errno names (lower case, sorted)
+func acceptClass(repo, fn, name string) []string {
+	f, err := parser.ParseFile(fset, filepath.Join(repo, "acceptor_unix.go"), nil, 0)
+	if err != nil {
+		fail(name, "parse error: "+err.Error())
+		return nil
+	}
+	for _, d := range f.Decls {
+		fd, ok := d.(*ast.FuncDecl)
+		if !ok || fd.Name.Name != fn || fd.Recv == nil {
+			continue
+		}
+		var sw *ast.SwitchStmt
+		ast.Inspect(fd.Body, func(n ast.Node) bool {
+			if s, ok := n.(*ast.SwitchStmt); ok && sw == nil && s.Tag != nil && src(s.Tag) == "err" {
+				sw = s
+			}
+			return sw == nil
+		})
+		if sw == nil {
+			fail(name, "no `switch err` in "+fn)
+			return nil
+		}
+		var tol []string
+		sawDefault := false
+		for _, cc := range sw.Body.List {
+			c := cc.(*ast.CaseClause)
+			last := ""
+			if len(c.Body) > 0 {
+				last = src(c.Body[len(c.Body)-1])
+			}
+			if c.List == nil {
+				sawDefault = true
+				if !strings.HasSuffix(last, "ErrAcceptSocket") || !strings.HasPrefix(last, "return ") {
+					fail(name, "default branch of the accept error switch is not `return ErrAcceptSocket`: "+last)
+				}
+				continue
+			}
+			for _, v := range c.List {
+				x := src(v)
+				if x == "nil" {
+					if len(c.Body) != 0 {
+						fail(name, "case nil has a body")
+					}
+					continue
+				}
+				if !strings.HasPrefix(x, "unix.E") {
+					fail(name, "case value outside the subset: "+x)
+					continue
+				}
+				switch {
+				case last == "return nil" || last == "continue":
+					tol = append(tol, strings.ToLower(strings.TrimPrefix(x, "unix.")))
+				case strings.HasPrefix(last, "return ") && strings.HasSuffix(last, "ErrAcceptSocket"):
+				default:
+					fail(name, "branch outside the subset: "+last)
+				}
+			}
+		}
+		if !sawDefault {
+			fail(name, "the accept error switch has no default branch")
+		}
+		sort.Strings(tol)
+		return tol
+	}
+	fail(name, fn+" not found in acceptor_unix.go")
+	return nil
+}
+
+// every mention of an errno constant (unix.E*, not the EPOLL* masks) in the loop's I/O code, per function
+func errnoSites(repo string, files []string) [][2]string {
+	var out [][2]string
+	for _, file := range files {
+		f, err := parser.ParseFile(fset, filepath.Join(repo, file), nil, 0)
+		if err != nil {
+			fail("errno_sites_as_modelled", "parse error: "+err.Error())
+			continue
+		}
+		for _, d := range f.Decls {
+			fd, ok := d.(*ast.FuncDecl)
+			if !ok || fd.Body == nil {
+				continue
+			}
+			name := fd.Name.Name
+			if fd.Recv != nil && len(fd.Recv.List) == 1 {
+				name = strings.TrimPrefix(src(fd.Recv.List[0].Type), "*") + "." + name
+			}
+			ast.Inspect(fd.Body, func(n ast.Node) bool {
+				if se, ok := n.(*ast.SelectorExpr); ok {
+					if id, ok := se.X.(*ast.Ident); ok && id.Name == "unix" && strings.HasPrefix(se.Sel.Name, "E") &&
+						!strings.HasPrefix(se.Sel.Name, "EPOLL") && strings.ToUpper(se.Sel.Name) == se.Sel.Name {
+						out = append(out, [2]string{name, strings.ToLower(se.Sel.Name)})
+					}
+				}
+				return true
+			})
+		}
+	}
+	return out
+}
+
 // ---------------------------------------------------------------- constants
 
 func intConst(repo, file, name string) (int64, bool) {
@@ -476,6 +580,8 @@ func main() {
 	prog := processIO(repo)
 	pd := polling(repo, "poller_epoll_default.go", "polling_default_sentinels")
 	pu := polling(repo, "poller_epoll_ultimate.go", "polling_ultimate_sentinels")
+	acc := acceptClass(repo, "accept", "accept_errors_as_modelled")
+	acc0 := acceptClass(repo, "accept0", "accept_errors_as_modelled")
 	iov, ok := intConst(repo, "eventloop_unix.go", "iovMax")
 	if !ok {
 		fail("iov_max_as_modelled", "const iovMax not found as an integer literal in eventloop_unix.go")
@@ -506,6 +612,15 @@ func main() {
 		fmt.Fprintf(&b, "Definition gen_%s_wait_retry : list string := %s.\n", x.n, coqStrs(x.ps.retry))
 		fmt.Fprintf(&b, "Lemma polling_%s_sentinels :\n  gen_%s_callback_sites = [polling_callback_sentinels] /\\ gen_%s_task_sites = [polling_task_sentinels; polling_task_sentinels] /\\ gen_%s_wait_retry = polling_wait_retry.\nProof. vm_compute. repeat split; reflexivity. Qed.\n\n", x.n, x.n, x.n, x.n)
 	}
+	fmt.Fprintf(&b, "Definition gen_accept_tolerated : list string := %s.\nDefinition gen_accept0_tolerated : list string := %s.\n", coqStrs(acc), coqStrs(acc0))
+	b.WriteString("Lemma accept_errors_as_modelled : gen_accept_tolerated = accept_tolerated /\\ gen_accept0_tolerated = accept_tolerated.\nProof. vm_compute. split; reflexivity. Qed.\n")
+	sites := errnoSites(repo, []string{"eventloop_unix.go", "connection_unix.go", "connection_linux.go"})
+	var ss []string
+	for _, x := range sites {
+		ss = append(ss, fmt.Sprintf("(%q, %q)", x[0], x[1]))
+	}
+	fmt.Fprintf(&b, "\nDefinition gen_errno_sites : list (string * string) := [%s].\n", strings.Join(ss, "; "))
+	b.WriteString("Lemma errno_sites_as_modelled : gen_errno_sites = errno_sites.\nProof. vm_compute. reflexivity. Qed.\n")
 	if err := os.WriteFile(*out, []byte(b.String()), 0o644); err != nil {
 		fmt.Fprintln(os.Stderr, err)
 		os.Exit(2)
